@@ -68,7 +68,8 @@ func checkC16(spec *PropSpec, repo, tier string, seed int, workers int) int {
 		key    string
 	}{{R, "", "scenario_plain_commands"}, {-2, "-stalled", "scenario_stalled_client"},
 		{-3, "-stalled-oversized", "scenario_stalled_client_oversized_message"},
-		{-4, "-extended-cycle", "scenario_extended_query_cycle"}, {-5, "-malformed", "scenario_command_ending_in_an_error"}, {-1, "-discarding", "scenario_discarding"}}
+		{-4, "-extended-cycle", "scenario_extended_query_cycle"}, {-5, "-malformed", "scenario_command_ending_in_an_error"}, {-1, "-discarding", "scenario_discarding"},
+		{-6, "-two-listeners", "scenario_served_on_two_listeners"}}
 	// the scenarios are independent (and z3 is single-threaded): run them side by side
 	rcs := make([]int, len(scenarios))
 	var wgS sync.WaitGroup
@@ -194,7 +195,13 @@ func checkC16Scenario(spec *PropSpec, repo, tier string, seed int, workers int, 
 	threads["closeA"] = closePaths
 	threads["closeB"] = closePaths
 	threads["serve"] = extract("VerifT16Serve", map[string]int{})
-	threads["conn"] = extract("VerifT16Conn", map[string]int{"R": R})
+	if R == -6 {
+		// scenario 7: one Server served on two listeners (Serve called twice), no
+		// connection: each Close must stop both accept loops
+		threads["serve2"] = extract("VerifT16Serve", map[string]int{"LID": 1})
+	} else {
+		threads["conn"] = extract("VerifT16Conn", map[string]int{"R": R})
+	}
 	for name, p := range threads {
 		if len(p) == 0 {
 			inconclusive = append(inconclusive, "no event paths for thread "+name)
@@ -214,6 +221,9 @@ func checkC16Scenario(spec *PropSpec, repo, tier string, seed int, workers int, 
 				if len(e.Spawn) > 0 {
 					x["spawn"] = conv(e.Spawn)
 				}
+				if len(e.Alts) > 0 {
+					x["alts"] = conv(e.Alts)
+				}
 				out = append(out, x)
 			}
 			return out
@@ -224,7 +234,7 @@ func checkC16Scenario(spec *PropSpec, repo, tier string, seed int, workers int, 
 			}
 		}
 		specPath := filepath.Join(scratch, "spec.json")
-		data, _ := json.Marshal(map[string]any{"threads": low, "timeout_ms": 900000, "need_handler": R != -2 && R != -3 && R != -5})
+		data, _ := json.Marshal(map[string]any{"threads": low, "timeout_ms": 900000, "need_handler": R != -2 && R != -3 && R != -5 && R != -6})
 		os.WriteFile(specPath, data, 0o644)
 		ctx, cancel := context.WithTimeout(context.Background(), 40*time.Minute)
 		defer cancel()
@@ -352,7 +362,7 @@ func checkC16Scenario(spec *PropSpec, repo, tier string, seed int, workers int, 
 		"samples":                       samples,
 		"rule":                          "states = event-tree nodes x unrolling depth K (program-counter valuations per step); transitions = tree edges x K (edge instances in the unrolled transition relation); every interleaving of the bounded threads is a model of the formula",
 		"bmc":                           br,
-		"threads":                       map[string]int{"closeA": len(threads["closeA"]), "closeB": len(threads["closeB"]), "serve": len(threads["serve"]), "conn": len(threads["conn"])},
+		"threads":                       map[string]int{"closeA": len(threads["closeA"]), "closeB": len(threads["closeB"]), "serve": len(threads["serve"]), "serve2": len(threads["serve2"]), "conn": len(threads["conn"])},
 		"bounds":                        map[string]int{"close_callers": 2, "connections": 1, "commands_per_connection": R, "K": br.K},
 		"obligations":                   total,
 		"discharged":                    discharged,
@@ -408,6 +418,7 @@ func newSchedRunner(repo string) *nativeRunner {
 		}
 		out, _, err := instrumentSched(f, src)
 		if err != nil {
+			fmt.Printf("INCONCLUSIVE C16 schedule points could not be placed in %s (%v): schedules will not replay\n", f, err)
 			continue
 		}
 		real := filepath.Join(n.scratch, "instr_"+f)
